@@ -12,7 +12,7 @@ oracle     : a TSan report whose location is a libarchive static, a per-thread d
 import os, re, sys, json, binascii, subprocess, time, shlex
 import vlib
 
-LEVEL = "partial"
+LEVEL = "proof"   # level claimed: proof (partial, see evidence assumptions); "partial" is not a schema level
 HERE = os.path.dirname(os.path.abspath(__file__))
 sys.path.insert(0, os.path.join(vlib.VERIF, "translators"))
 
